@@ -174,3 +174,7 @@ def run(P: Program, R: Report, tier: str) -> None:
     fams_ = [f_ for f_ in families(P, ta) if "tracklet" in f_["key"] or "track" in f_["key"]]
     monotone_maxima(P, R, ta, families(P, ta), "R04.4", only_key="track", floor=1)
     no_wholesale_replace(P, R, ta, fams_, rule="R04.4")
+    # ---- R04.5 a query of the data model never answers from a memo that some writer forgets to drop
+    from .memo import no_stale_memo
+
+    no_stale_memo(P, R, "R04.5")
